@@ -28,14 +28,14 @@ theorem Neutral.nil : Neutral [] := fun s => rfl
 theorem Neutral.append {a b : List Event} (ha : Neutral a) (hb : Neutral b) : Neutral (a ++ b) := by
   intro s; rw [run_append, ha s]; exact hb s
 
-theorem Neutral.fill : Neutral [.fill] := fun s => rfl
+theorem Neutral.fill (b : Brush) : Neutral [.fill b] := fun s => rfl
 theorem Neutral.cached (g : Gid) : Neutral [.cached g] := fun s => rfl
-theorem Neutral.fillGlyph (g : Gid) (ht : Bool) : Neutral [.fillGlyph g ht] := fun s => rfl
+theorem Neutral.fillGlyph (g : Gid) (bt : Option TWord) (b : Brush) : Neutral [.fillGlyph g bt b] := fun s => rfl
 
-theorem Neutral.expand (g : Gid) (ht : Bool) : Neutral (expandFillGlyph g ht) := by
-  intro s; cases ht <;> rfl
+theorem Neutral.expand (g : Gid) (bt : Option TWord) (b : Brush) : Neutral (expandFillGlyph g bt b) := by
+  intro s; cases bt <;> rfl
 
-theorem Neutral.bracketT {m : List Event} (h : Neutral m) : Neutral ([.pushT] ++ m ++ [.popT]) := by
+theorem Neutral.bracketT {m : List Event} (w : TWord) (h : Neutral m) : Neutral ([.pushT w] ++ m ++ [.popT]) := by
   intro s
   rw [run_append, run_append]
   show (match (match run (.transform :: s) [] with | none => none | some s' => run s' m) with
@@ -50,8 +50,8 @@ theorem Neutral.bracketClipGlyph {m : List Event} (g : Gid) (h : Neutral m) :
     | none => none | some s' => run s' [.popClip]) = some s
   simp only [run, h (.clip :: s), step]
 
-theorem Neutral.bracketClipBox {m : List Event} (h : Neutral m) :
-    Neutral ([.pushClipBox] ++ m ++ [.popClip]) := by
+theorem Neutral.bracketClipBox {m : List Event} (b : ClipBoxV) (h : Neutral m) :
+    Neutral ([.pushClipBox b] ++ m ++ [.popClip]) := by
   intro s
   rw [run_append, run_append]
   show (match (match run (.clip :: s) [] with | none => none | some s' => run s' m) with
@@ -69,7 +69,7 @@ theorem Neutral.bracketLayer {m : List Event} (k : Nat) (h : Neutral m) :
 /-! ### what nested fill-glyph optimisers pass down -/
 
 /-- every element is a `fill_glyph` call -/
-def AllFG (l : List Event) : Prop := ∀ e ∈ l, ∃ g ht, e = .fillGlyph g ht
+def AllFG (l : List Event) : Prop := ∀ e ∈ l, ∃ g bt b, e = .fillGlyph g bt b
 
 theorem AllFG.nil : AllFG [] := by intro e h; cases h
 
@@ -82,7 +82,7 @@ theorem AllFG.append {a b : List Event} (ha : AllFG a) (hb : AllFG b) : AllFG (a
 theorem optPrim_out (o : Opt) (e : Event) : AllFG (optPrim o e).2 := by
   cases e <;> simp only [optPrim] <;> try exact AllFG.nil
   split
-  · intro e h; simp at h; exact ⟨_, _, h⟩
+  · intro e h; simp at h; exact ⟨_, _, _, h⟩
   · exact AllFG.nil
 
 theorem optPrims_out (o : Opt) (l : List Event) : AllFG (optPrims o l).2 := by
@@ -105,11 +105,11 @@ theorem neutral_root_of_allFG (c : Client) {l : List Event} (h : AllFG l) :
   | cons e es ih =>
     simp only [List.flatMap_cons]
     refine Neutral.append ?_ (ih (fun x hx => h x (List.mem_cons_of_mem _ hx)))
-    obtain ⟨g, ht, rfl⟩ := h e (List.mem_cons_self ..)
+    obtain ⟨g, bt, b, rfl⟩ := h e (List.mem_cons_self ..)
     simp only [rootRecord]
     split
-    · exact Neutral.fillGlyph g ht
-    · exact Neutral.expand g ht
+    · exact Neutral.fillGlyph g bt b
+    · exact Neutral.expand g bt b
 
 theorem sendL_length (c : Client) (opts : List Opt) (evs : List Event) :
     (sendL c opts evs).1.length = opts.length := by
@@ -171,6 +171,12 @@ theorem emit_step (c : Client) (e : Event) (st : St) :
 
 theorem emit_visits (c : Client) (e : Event) (st : St) : (emit c e st).visits = st.visits := rfl
 
+theorem pushClip_visits (c : Client) (b : Option ClipBoxV) (st : St) : (pushClip c b st).visits = st.visits := by
+  cases b <;> rfl
+
+theorem popClipIf_visits (c : Client) (b : Option ClipBoxV) (st : St) : (popClipIf c b st).visits = st.visits := by
+  cases b <;> rfl
+
 /-- the traversal invariant: a `Step`, and on the client itself (no optimiser) a successful result
 comes with a neutral stream -/
 def Inv (st : St) (r : Res) : Prop :=
@@ -226,21 +232,21 @@ theorem arm_inv (inst : Instance) (c : Client) (rec : Node → List PaintId → 
         · split
           · exact Inv.here _ _
           · exact ih _ _ _
-    | leaf fills =>
+    | leaf brush =>
       simp only [arm]
-      cases fills with
-      | false => exact Inv.here _ _
-      | true =>
-        obtain ⟨new, s, hroot⟩ := emit_step c .fill st
+      cases brush with
+      | none => exact Inv.here _ _
+      | some b =>
+        obtain ⟨new, s, hroot⟩ := emit_step c (.fill b) st
         refine ⟨new, s, fun h _ => ?_⟩
-        rw [hroot h]; exact Neutral.fill
+        rw [hroot h]; exact Neutral.fill b
     | glyph g child =>
       simp only [arm]
       split
       · exact Inv.here _ _
       · rename_i n hres
-        have h1 := ih n dec { st with opts := { success := true, hasT := false, gid := g } :: st.opts }
-        generalize rec n dec { st with opts := { success := true, hasT := false, gid := g } :: st.opts } = r1 at h1 ⊢
+        have h1 := ih n dec { st with opts := { success := true, bt := none, gid := g } :: st.opts }
+        generalize rec n dec { st with opts := { success := true, bt := none, gid := g } :: st.opts } = r1 at h1 ⊢
         obtain ⟨n1, s1, _⟩ := h1
         have hN1 : Neutral n1 := s1.inner (by simp)
         have hlen := s1.len
@@ -290,9 +296,9 @@ theorem arm_inv (inst : Instance) (c : Client) (rec : Node → List PaintId → 
           · exact Inv.of_step_err sa _
           · refine ⟨na, sa, fun h0 _ => ?_⟩
             rw [ha h0]; exact Neutral.cached g
-          · cases hclip : inst.hasClip g with
-            | false =>
-              simp only [Bool.false_eq_true, if_false]
+          · cases hclip : inst.clip g with
+            | none =>
+              simp only [pushClip, popClipIf]
               split
               · exact Inv.of_step_err sa _
               · rename_i n hres
@@ -302,14 +308,14 @@ theorem arm_inv (inst : Instance) (c : Client) (rec : Node → List PaintId → 
                 refine ⟨na ++ n2, sa.trans s2, fun h0 hr => ?_⟩
                 rw [ha h0]
                 exact (Neutral.cached g).append (k2 ((Step.nil_iff sa).mpr h0) hr)
-            | true =>
-              simp only [if_true]
-              obtain ⟨nb, sb, hb'⟩ := emit_step c .pushClipBox a.2
+            | some bx =>
+              simp only [pushClip, popClipIf]
+              obtain ⟨nb, sb, hb'⟩ := emit_step c (.pushClipBox bx) a.2
               split
               · exact Inv.of_step_err (sa.trans sb) _
               · rename_i n hres
-                have h2 := ih n dec' (emit c .pushClipBox a.2)
-                generalize rec n dec' (emit c .pushClipBox a.2) = r at h2 ⊢
+                have h2 := ih n dec' (emit c (.pushClipBox bx) a.2)
+                generalize rec n dec' (emit c (.pushClipBox bx) a.2) = r at h2 ⊢
                 obtain ⟨n2, s2, k2⟩ := h2
                 obtain ⟨nc, sc, hc⟩ := emit_step c .popClip r.2
                 refine ⟨na ++ (nb ++ (n2 ++ nc)), sa.trans (sb.trans (s2.trans sc)), fun h0 hr => ?_⟩
@@ -318,23 +324,23 @@ theorem arm_inv (inst : Instance) (c : Client) (rec : Node → List PaintId → 
                 have h4 := (Step.nil_iff s2).mpr h3
                 rw [ha h0, hb' h1, hc h4]
                 refine (Neutral.cached g).append ?_
-                have := Neutral.bracketClipBox (k2 h3 hr)
+                have := Neutral.bracketClipBox bx (k2 h3 hr)
                 simpa [rootRecord] using this
-    | transform child =>
+    | transform tag child =>
       simp only [arm]
-      obtain ⟨na, sa, ha⟩ := emit_step c .pushT st
+      obtain ⟨na, sa, ha⟩ := emit_step c (.pushT [tag]) st
       split
       · exact Inv.of_step_err sa _
       · rename_i n hres
-        have h2 := ih n dec (emit c .pushT st)
-        generalize rec n dec (emit c .pushT st) = r at h2 ⊢
+        have h2 := ih n dec (emit c (.pushT [tag]) st)
+        generalize rec n dec (emit c (.pushT [tag]) st) = r at h2 ⊢
         obtain ⟨n2, s2, k2⟩ := h2
         obtain ⟨nb, sb, hb⟩ := emit_step c .popT r.2
         refine ⟨na ++ (n2 ++ nb), sa.trans (s2.trans sb), fun h0 hr => ?_⟩
         have h1 := (Step.nil_iff sa).mpr h0
         have h3 := (Step.nil_iff s2).mpr h1
         rw [ha h0, hb h3]
-        have := Neutral.bracketT (k2 h1 hr)
+        have := Neutral.bracketT [tag] (k2 h1 hr)
         simpa [rootRecord] using this
     | composite src mode backdrop =>
       simp only [arm]
